@@ -83,7 +83,7 @@ class ASubSamplingFraction(pl.AUncertainty):
                         return_utilities=return_utilities)
 
 
-LOOP_ADAPTERS = dict(pl.ADAPTERS)
+LOOP_ADAPTERS = {k: v for k, v in pl.ADAPTERS.items() if getattr(v, "loop", True)}
 LOOP_ADAPTERS["SubSamplingWrapper[max_candidates=0.5]"] = ASubSamplingFraction()
 
 
